@@ -517,6 +517,31 @@ func init() {
 		iv := a[2].(IfaceV)
 		p := iv.V.(Ptr)
 		elem := iv.T.Underlying().(*types.Pointer).Elem()
+		// as the SDK's SetParamSet: every pair's registered validator is run on the value being stored, and a value it
+		// rejects is a panic ("value from ParamSetPair is invalid")
+		if m := it.prog.LookupMethod(iv.T, nil, "ParamSetPairs"); m != nil && isTeleportPkg(m.Pkg) {
+			if pairs, ok := it.call(m, []Val{iv.V}, nil).(*SliceV); ok && pairs.Arr != nil {
+				for i := 0; i < pairs.Len; i++ {
+					pair, ok := (*pairs.Arr)[pairs.Off+i].(*StructV)
+					if !ok || len(pair.F) != 3 {
+						it.fail("SetParamSet: unexpected ParamSetPair %s", it.describe((*pairs.Arr)[pairs.Off+i]))
+					}
+					pv, ok := pair.F[1].(IfaceV)
+					if !ok || pv.IsNil() {
+						it.fail("SetParamSet: pair without a value")
+					}
+					vp, ok := pv.V.(Ptr)
+					pt, ok2 := pv.T.Underlying().(*types.Pointer)
+					if !ok || !ok2 || vp == nil {
+						it.fail("SetParamSet: pair value is not a pointer")
+					}
+					res := it.call(pair.F[2], []Val{IfaceV{T: pt.Elem(), V: copyDeep(*vp)}}, nil)
+					if e, ok := res.(IfaceV); !ok || !e.IsNil() {
+						it.tpanic("value from ParamSetPair is invalid (SetParamSet)")
+					}
+				}
+			}
+		}
 		d.vals[typeKey(elem)] = copyDeep(*p)
 		return nil
 	})
